@@ -283,12 +283,58 @@ class SymPattern:
             return self.real.fullmatch(self._tostr(string))
         return self._match_at(SStr.of(string), 0, full=True)
 
+    def _iter_matches(self, string):
+        """successive matches with CPython's scanning rules (as in sub / finditer / split)"""
+        string = SStr.of(string)
+        n = len(string.cs)
+        start, must_advance = 0, False
+        out = []
+        while start <= n:
+            m = None
+            for st in range(start, n + 1):
+                m = self._match_at(string, st, must_advance=(must_advance and st == start))
+                if m is not None:
+                    break
+            if m is None:
+                break
+            out.append(m)
+            must_advance = (m._e == m._s)
+            start = m._e
+        return out
+
     def finditer(self, string):
         if not self._sym(string):
             return self.real.finditer(self._tostr(string))
-        raise EngineError("finditer on a symbolic subject")
+        return iter(self._iter_matches(string))
 
-    findall = split = finditer
+    def findall(self, string):
+        if not self._sym(string):
+            return self.real.findall(self._tostr(string))
+        out = []
+        for m in self._iter_matches(string):
+            if self.groups == 0:
+                out.append(m.group(0))
+            elif self.groups == 1:
+                out.append(m.group(1) if m.group(1) is not None else "")
+            else:
+                out.append(tuple(g if g is not None else "" for g in m.groups()))
+        return out
+
+    def split(self, string, maxsplit=0):
+        if not self._sym(string):
+            return self.real.split(self._tostr(string), maxsplit)
+        s = SStr.of(string)
+        out, last, k = [], 0, 0
+        for m in self._iter_matches(s):
+            if maxsplit and k >= maxsplit:
+                break
+            out.append(SStr.mk(s.cs[last:m._s]))
+            for g in range(1, self.groups + 1):
+                out.append(m.group(g))
+            last = m._e
+            k += 1
+        out.append(SStr.mk(s.cs[last:]))
+        return out
 
     def sub(self, repl, string, count=0):
         return self.subn(repl, string, count)[0]
@@ -518,6 +564,15 @@ class SymReModule:
 
     def subn(self, pattern, repl, string, count=0, flags=0):
         return self.compile(pattern, flags).subn(repl, string, count)
+
+    def split(self, pattern, string, maxsplit=0, flags=0):
+        return self.compile(pattern, flags).split(string, maxsplit)
+
+    def findall(self, pattern, string, flags=0):
+        return self.compile(pattern, flags).findall(string)
+
+    def finditer(self, pattern, string, flags=0):
+        return self.compile(pattern, flags).finditer(string)
 
     def escape(self, s):
         if isinstance(s, SStr):
